@@ -26,7 +26,8 @@ class World:
                 s.p = nn.Parameter(sg.Tensor(PV.copy(), requires_grad=True))
                 s.q = nn.Parameter(sg.Tensor(QV.copy(), requires_grad=True))
         self.mod = M()
-        self.opt = sg.optim.SGD(self.mod.parameters(), lr=0.1)
+        # lr = 0: a step leaves the values alone (so the forward-mode reference stays valid) but runs the whole update path
+        self.opt = sg.optim.SGD(self.mod.parameters(), lr=0.0, momentum=0.9, weight_decay=0.5, maximize=True)
         self.t = {"p": self.mod.p, "q": self.mod.q, "c": sg.Tensor(CV.copy()), "huge": sg.Tensor(HUGE.copy())}
         # forward-mode reference: value, d/dp, d/dq (all ops are element-wise -> diagonal Jacobians)
         self.dual = {"p": (PV, np.ones(2), np.zeros(2)), "q": (QV, np.zeros(2), np.ones(2)), "c": (CV, np.zeros(2), np.zeros(2)),
@@ -48,6 +49,8 @@ class World:
             if n in self.t and n not in self.retained:
                 ev.append(("retain", n))
         ev += [("zero", "p"), ("zero", "q"), ("zero", "module"), ("zero", "optimizer")]
+        if all(a is None or np.all(np.isfinite(a)) for a in self.acc.values()):
+            ev.append(("step",))      # an optimizer step reads gradients; it is not a reset and contributes nothing
         return ev
 
     def apply(self, e, check=True):
@@ -96,6 +99,11 @@ class World:
             else:
                 (self.mod if w == "module" else self.opt).zero_grad()
                 touched |= {"p", "q"}; self.acc["p"] = np.zeros(2); self.acc["q"] = np.zeros(2)
+        elif e[0] == "step":
+            self.opt.step()
+            for leaf, val in (("p", PV), ("q", QV)):
+                if not np.array_equal(np.asarray(self.t[leaf].data), val):
+                    raise harness.HarnessError(f"lr=0 step changed the value of {leaf}")
         if not check:
             return bad
         for leaf in ("p", "q"):
@@ -149,7 +157,8 @@ def run(tier, seed):
            "pruned_violating_transitions": res.pruned,
            "rule": f"all histories up to depth {depth} over: build y1=p*q, h=p*c, y3=h*h, z=y1*c, z2=y1+y3, w=q*q on shared Parameters "
                    "p,q of one Module/optimizer; backward(root, g) for every existing node AND leaf as root, g in {(1,1),(0.5,-2)}, "
-                   "plain or under retain_grads; retain_grad(node); p.zero_(), q.zero_(), module.zero_grad(), optimizer.zero_grad(). "
+                   "plain or under retain_grads; retain_grad(node); p.zero_(), q.zero_(), module.zero_grad(), optimizer.zero_grad(); optimizer.step() of an SGD(lr=0, momentum, "
+                   "weight decay, maximize) - reads gradients, must leave them alone. "
                    "After every event: .grad of p and q == ledger (sum of forward-mode contributions since last reset), unreachable "
                    "leaves byte-identical, every caller-owned g byte-identical"}
     if tier == "thorough":
